@@ -522,3 +522,31 @@ Proof.
   exists {| nstarts := [0%N]; nfinals := []; edges := [] |}, {| nstarts := []; nfinals := [0%N]; edges := [] |}.
   split; vm_compute; reflexivity.
 Qed.
+
+(* ---------- RemoveUselessStates leaves only useful states ---------- *)
+Lemma nreach2_useful A x : In x (nreach (nreverse (nunreach A))) -> nuseful A x.
+Proof.
+  intros H. apply nreach_spec in H as [f [w [Hf Hw]]]. simpl in Hf. apply filter_In in Hf as [Hf Hr].
+  apply memN_In, nreach_spec in Hr. apply nreverse_path in Hw.
+  assert (Hco : exists q u, In q (nfinals A) /\ wpath A u x q).
+  { exists f, (rev w). split; auto. eapply wpath_mono; [|exact Hw]. simpl. intros e He. apply filter_In in He. tauto. }
+  split; auto.
+  destruct (rev w) as [|a u]; simpl in Hw.
+  - subst. exact Hr.
+  - destruct Hw as [m [He _]]. apply filter_In in He as [_ He]. apply memN_In, nreach_spec in He. exact He.
+Qed.
+
+Theorem nuseless_useful A x : In x (nstates (nuseless A)) -> nuseful A x.
+Proof.
+  intros H. apply nstates_inv in H. destruct H as [H|[H|[e [He H]]]].
+  - simpl in H. apply filter_In in H as [_ H]. apply memN_In in H. apply nreach2_useful; auto.
+  - simpl in H. apply filter_In in H as [Hf Hr]. apply memN_In, nreach_spec in Hr. split; auto.
+    exists x, []. simpl. auto.
+  - unfold nuseless in He. simpl in He. apply in_map_iff in He as [g [<- Hg]]. apply filter_In in Hg as [Hg Hsrc].
+    apply in_map_iff in Hg as [h [<- Hh]]. apply filter_In in Hh as [Hh Hr1].
+    rewrite rev_edge_invol in H. apply memN_In in Hsrc. apply memN_In, nreach_spec in Hr1.
+    destruct h as [[p a] q]. unfold rev_edge, esrc, edst in *; simpl in *.
+    pose proof (nreach2_useful A q Hsrc) as Uq.
+    destruct H as [->| ->]; auto.
+    split; auto. destruct Uq as [_ [f [u [Hf Hu]]]]. exists f, (a :: u). split; auto. simpl. exists q. auto.
+Qed.
